@@ -700,8 +700,15 @@ THEOREMS: list[str] = [
     "HappyModel.C11.apply_in_order_no_gaps",
     "HappyModel.C11.apply_from_log",
     "HappyModel.C11.submit_resolves_own_command",
-    "HappyModel.C11.commit_monotone_partial",
+    "HappyModel.C11.match_sound",
+    "HappyModel.C11.lc_main",
+    "HappyModel.C11.leader_completeness",
+    "HappyModel.C11.state_machine_safety",
+    "HappyModel.C11.commit_monotone",
+    "HappyModel.C11.committed_never_truncated",
     "HappyModel.C11.clen_reachable",
+    # earlier per-step / conditional forms, now lemmas of the four theorems above
+    "HappyModel.C11.commit_monotone_partial",
     "HappyModel.C11.state_machine_safety_partial",
     "HappyModel.C11.leader_completeness_partial",
     # the repaired code
@@ -710,31 +717,27 @@ THEOREMS: list[str] = [
     "HappyModel.C11.apply_in_order_no_gaps_repaired",
     "HappyModel.C11.apply_from_log_repaired",
     "HappyModel.C11.submit_resolves_own_command_repaired",
-    "HappyModel.C11.state_machine_safety_partial_repaired",
+    "HappyModel.C11.match_sound_repaired",
+    "HappyModel.C11.leader_completeness_repaired",
+    "HappyModel.C11.state_machine_safety_repaired",
+    "HappyModel.C11.commit_monotone_repaired",
+    "HappyModel.C11.committed_never_truncated_repaired",
+    "HappyModel.C11.leader_completeness_full_holds",
+    "HappyModel.C11.state_machine_safety_full_holds",
+    "HappyModel.C11.commit_monotone_full_holds",
     # the pinned code falsifies the property (concrete runs, by `decide`)
     "HappyModel.C11.election_safety_current_false",
     "HappyModel.C11.leader_completeness_current_false",
     "HappyModel.C11.submit_resolves_own_command_current_false",
 ]
 C11.partial_theorems = {
-    "HappyModel.C11.leader_completeness_partial":
-        "full statement `leader_completeness_full` (Completeness.lean) is NOT proved. Proved: the commit rule (a leader commits N only "
-        "if N holds an entry of its current term and a quorum of match_index ≥ N). Missing invariant: `match_sound` (an acknowledgement "
-        "counted in term T means the follower's log equalled the leader's up to N in term T) and the election argument that a later "
-        "winner's log contains every quorum-acknowledged entry. Judged on every implementation trace instead (0 violations; d2/d3/fig8 corpus).",
-    "HappyModel.C11.state_machine_safety_partial":
-        "full statement `state_machine_safety_full` NOT proved. Proved: applied commands are committed log entries of the applying node "
-        "(apply_from_log) and, IF no two entries ever shown committed at one index differ (commitAgreeOk, which needs Leader Completeness), "
-        "THEN no two nodes apply different commands at one index.",
-    "HappyModel.C11.commit_monotone_partial":
-        "full statement `commit_monotone_full` NOT proved. Proved per step: commit ≤ len(log) always, and commit_index never decreases "
-        "unless the step delivers an AppendEntries that conflicts with an entry at or below the destination's commit index "
-        "(Log.truncate_from then lowers it). Excluding that case needs Leader Completeness.",
     "stable_leader_commits":
         "the bounded-progress clause is not a theorem: it is judged (Spec.stableOk) on the generated fault-free `stable` family only.",
 }
 C11.hypotheses = [
     "election_safety, log_matching: Variant.keepVote (repair D1: _step_down keeps voted_for within a term)",
+    "match_sound, leader_completeness, state_machine_safety, commit_monotone: Rep v = keepVote ∧ matchSent ∧ staleAck (repairs D1–D3, all in /repo); "
+    "proved over every action list via the history invariant HInv (seen/llogs/cands ghost lists, HappyProofs/C11/HInv.lean)",
     "submit_resolves_own_command: Variant.dropPending (repair D4) and FreshFutures (each submit call gets its own SimFuture)",
     "soup never shrinks on delivery: theorems also cover duplicated deliveries, which the real Network never produces",
 ]
